@@ -56,7 +56,12 @@ mod absolute_to_relative_time {
         D: Deserializer<'de>,
     {
         let deadline = Duration::deserialize(deserializer)?;
-        Ok(Instant::now() + deadline)
+        let now = Instant::now();
+        // The duration is chosen by the peer and can exceed what an Instant can represent;
+        // saturate to a far-future deadline instead of panicking.
+        Ok(now
+            .checked_add(deadline)
+            .unwrap_or_else(|| now + Duration::from_secs(60 * 60 * 24 * 365 * 30)))
     }
 
     #[cfg(test)]
